@@ -517,6 +517,28 @@ def narrow_completion_label(op, df_in, exc):
     return None
 
 
+def int_destination_as_float(p, expected, obs):
+    """the ONLY differences: in a destination column that has an unmapped (n/a) row, cells whose listed destination value is
+    a JSON integer come back as the float of the same value (2 -> 2.0)"""
+    ecols, erows = expected
+    ocols, orows = obs
+    if list(ecols) != list(ocols) or len(erows) != len(orows):
+        return False
+    seen = False
+    for j, c in enumerate(ecols):
+        col_has_na = any(r[j] is NA for r in erows)
+        for er, orow in zip(erows, orows):
+            e, o = er[j], orow[j]
+            if e is WILD or text(e) == text(o):
+                continue
+            if c in p["destination_columns"] and col_has_na and isinstance(o, float) and e is not NA \
+                    and text(e).lstrip("-").isdigit() and float(text(e)) == o:
+                seen = True
+                continue
+            return False
+    return seen
+
+
 def mixed_text_dtypes(df, p):
     """the compared columns (match columns + the code column) mix pandas 'str' and 'object' dtypes - only tables produced
     by an earlier operation of the list do that"""
@@ -665,6 +687,8 @@ def eval_meaning(payload):
         if not compare(exp[1], exp[2], obs):
             if op["operation"] == "merge_consecutive" and mixed_text_dtypes(cur, op["parameters"]):
                 label = "C17.meaning.merge_consecutive_mixed_str_object_columns"
+            if op["operation"] == "remap_columns" and int_destination_as_float(op["parameters"], exp[1], obs):
+                label = "C17.meaning.remap_integer_destination_as_float_beside_unmapped_rows"
             named = named_strings(op["parameters"]) | {"onset", "duration"}
             in_cols = set(view(cur)[0])
             is_named = lambda c: c in named or c not in in_cols
@@ -1457,11 +1481,13 @@ def repkey_maps(rng, src, dst, ints, quick, k0):
     in the quick tier).  Variants: 'distinct' - all destination values differ; 'partly_equal' (two destinations) - a row that
     lists a key again repeats the first destination value of that key's first row and differs in the second; 'same_text' (one
     destination) - the row listed again has the number 2 where the first has the text "2" (distinct rows for the JSON
-    specification, equal text in the table)"""
+    specification, equal text in the table); 'numbers' - every destination value a JSON integer of its own"""
     out = []
     k = k0
     for shape in REPKEY_SHAPES:
-        for variant in ("distinct", "partly_equal" if len(dst) == 2 else "same_text"):
+        for variant in ("distinct", "partly_equal" if len(dst) == 2 else "same_text", "numbers"):
+            if variant == "numbers" and shape not in REPKEY_SHAPES[:3]:
+                continue
             k += 1
             keys, _ = repkey_pool(src, ints, k)
             rows = []
@@ -1470,6 +1496,8 @@ def repkey_maps(rng, src, dst, ints, quick, k0):
                 for t in range(times):
                     i = len(rows)
                     dest = [REPKEY_DEST[d][i] for d in range(len(dst))]
+                    if variant == "numbers":
+                        dest = [10 * (d + 1) + i for d in range(len(dst))]
                     if t == 0:
                         first_of[ki] = i
                         if variant == "same_text" and times > 1:
@@ -1479,7 +1507,7 @@ def repkey_maps(rng, src, dst, ints, quick, k0):
                     elif variant == "same_text" and t == 1:
                         dest[0] = 2
                     rows.append([keys[ki][c] for c in src] + dest)
-            if variant != "distinct" and max(shape) == 1:
+            if variant not in ("distinct", "numbers") and max(shape) == 1:
                 continue
             perms = list(itertools.permutations(range(len(rows))))
             cap = 12 if quick else 60
